@@ -184,7 +184,7 @@ error nor one of its arguments. -/
 theorem extreme_css_fallback_refuted :
     @extreme Rat (ratOps L) asis .lt [⟨1, .px⟩, ⟨1, .percent⟩] = Res.cssCall ∧
     @extreme Rat (ratOps L) spec .lt [⟨1, .px⟩, ⟨1, .percent⟩] = Res.err := by
-  constructor <;> simp [extreme, extremeLoop, cmp2, qcmp, asUnit, unitScale, MUnit.dim, mayCmpCss, asis, spec,
+  constructor <;> simp [extreme, extremeLoop, cmp2, qcmp, asUnit, unitScale, MUnit.dim, Dim.css, mayCmpCss, asis, spec,
     isNaN, MOps.feq]
 
 /-- FULL: `floor` is the greatest integer not above the value. -/
